@@ -467,6 +467,10 @@ def run(tier):
             ("SELECT LOAD_FILE('/etc/passwd')" + " || a" * kk + " FROM t1", ("OUT_OF_BAND", "CRITICAL")),
             ("SELECT a FROM t1 WHERE b = 2" + "".join(" OR c%d = %d" % (i, i) for i in range(kk)) + " GROUP BY a HAVING 1 = 1", ("TAUTOLOGY", "CRITICAL")),
             ("SELECT a, b FROM t1" + " UNION SELECT a, b FROM t2" * (kk // 2) + " UNION SELECT NULL, NULL FROM t3" + " UNION SELECT a, b FROM t2" * 3, ("UNION_BASED", "HIGH"))]
+    FLAT += [("SELECT * FROM t1 u WHERE NOT EXISTS (SELECT 1 FROM t2 o WHERE o.id = 7 OR 1 = 1)", ("TAUTOLOGY", "CRITICAL")),
+             ("SELECT a FROM t1 WHERE NOT EXISTS (SELECT 1 FROM t2 WHERE SLEEP(5) > 0)", ("TIME_BASED", "HIGH")),
+             ("SELECT a FROM t1 WHERE b = 1 AND NOT EXISTS (SELECT a, b FROM t2 UNION SELECT NULL, NULL FROM t3)", ("UNION_BASED", "HIGH")),
+             ("DELETE FROM t1 WHERE NOT EXISTS (SELECT 1 FROM t2 WHERE LOAD_FILE('/etc/passwd') <> 'x')", ("OUT_OF_BAND", "CRITICAL"))]
     class _C(dict):
         pass
     for sql, exp in FLAT:
@@ -615,7 +619,20 @@ def run_sql_only(rp):
     if p.returncode != 0:
         rp.violation({"kind": "harness", "detail": p.stderr[-2000:]}, "scansql_harness", no_input=True)
         return None
-    return [json.loads(l)["f"] for l in p.stdout.splitlines() if l.strip()]
+    first = [json.loads(l)["f"] for l in p.stdout.splitlines() if l.strip()]
+    # the same texts in a process whose first (and only) scanners are created with an explicit threshold
+    p2 = common.vh(["scansql", "threshold-first"], input="".join(json.dumps({"sql": t}) + "\n" for t, _, _ in SQL_PAYLOADS), timeout=300)
+    second = [json.loads(l)["f"] for l in p2.stdout.splitlines() if l.strip()] if p2.returncode == 0 else None
+    if second is None or len(second) != len(first):
+        rp.violation({"kind": "harness", "detail": (p2.stderr or "")[-2000:]}, "scansql_harness_threshold_first", no_input=True)
+        return first
+    for i, (a, b) in enumerate(zip(first, second)):
+        if sorted((f["p"], f["s"]) for f in a) != sorted((f["p"], f["s"]) for f in b):
+            rp.violation({"kind": "oracle", "property": "C16", "entry": "ScanSQL", "text": SQL_PAYLOADS[i][0], "findings_default_scanner": a, "findings_threshold_scanner_first_in_process": b,
+                          "explanation": "ScanSQL of a scanner created with NewScannerWithSeverity(LOW) as the first scanner of a process reports something else than NewScanner(): a scan depends on what was constructed before"},
+                         "scansql_first_scanner_%d" % i)
+            break
+    return first
 
 
 def replay(path):
